@@ -5,7 +5,7 @@ import os
 VERIF = os.path.dirname(os.path.dirname(os.path.abspath(__file__)))
 
 HOOK_COMMITS = ["b9d4bd0", "034d117", "c156e58"]
-FIX_COMMITS = ["d307ba7", "1245628", "e2789dc", "37d0178", "8d97c84", "106b808", "4ace02c", "398b1f9", "8e20502", "758bf79", "bcb9d1c", "736daa9", "680eb52", "15107c2"]
+FIX_COMMITS = ["d307ba7", "1245628", "e2789dc", "37d0178", "8d97c84", "106b808", "4ace02c", "398b1f9", "8e20502", "758bf79", "bcb9d1c", "736daa9", "680eb52", "15107c2", "4063672"]
 
 TRUST = ("TLC 1.8 and the TLA+ reference modules (cross-validated against gcc 12 / gfortran / git where an "
          "external tool exists); the Python harness only materialises TLC-generated cases, reformats traces and "
@@ -158,6 +158,17 @@ CHECKS["C18"] = dict(
          "other categories are compared with the specification in-process, and cbi.log plus the closing totals through "
          "the CLI. Sampled, not exhaustive; message formats are parsed with the regular expressions listed in DESIGN A.2.",
     design="3/C18")
+
+CHECKS["C11"] = dict(
+    technique="TLA+ reference left-to-right option scan (Argv.Scan) with TLC invariant; TLC-enumerated argument vectors "
+              "replayed into config.ArgumentParser.parse_args and config.load_database (arguments and command forms)",
+    text="Every argument vector up to the piece bound over a catalogue of recognised-option spellings and ~40 real "
+         "unmodelled compiler options (plus simulated long vectors) is parsed by the real ArgumentParser for six compiler "
+         "names and through load_database in both database forms; defines, search directories (-I then -isystem) and "
+         "forced includes must equal what the reference scan extracts, followed by the compiler's configured implicit "
+         "options, and no exception may escape. `--` (whose meaning differs between gcc and clang) and single-dash "
+         "prefix abbreviations accepted by argparse are outside the catalogue.",
+    design="3/C11")
 
 PENDING_REASON = "check not built yet (build in progress; see DESIGN.md section 7)"
 
